@@ -6,12 +6,13 @@ import NTV.Driver.C13
 import NTV.Driver.C04
 import NTV.Driver.C05
 import NTV.Driver.C10
+import NTV.Driver.C01
 /-! Line-protocol driver. Input line: `op<TAB>arg…<TAB>=><TAB>implAnswer`.
 Output line: `modelAnswer<TAB>verdict`. -/
 open NTV.Parse
 
 def allOps : List (String × Handler) :=
-  NTV.Driver.C19.ops ++ NTV.Driver.C09.ops ++ NTV.Driver.C02.ops ++ NTV.Driver.C13.ops ++ NTV.Driver.C04.ops ++ NTV.Driver.C05.ops ++ NTV.Driver.C10.ops
+  NTV.Driver.C19.ops ++ NTV.Driver.C09.ops ++ NTV.Driver.C02.ops ++ NTV.Driver.C13.ops ++ NTV.Driver.C04.ops ++ NTV.Driver.C05.ops ++ NTV.Driver.C10.ops ++ NTV.Driver.C01.ops
 
 def handleLine (line : String) : String :=
   let fields := line.splitOn "\t"
